@@ -18,7 +18,8 @@ CHECKS = {
             "opener -> wt (preamble under harness control, every type/session-id varint length, every cut set, settle/no-settle, payload "
             "glued to the last preamble piece) and wt opener -> raw reader (wire bytes compared with the minimal preamble + payload); six data "
             "directions; payload lengths across varint/window boundaries up to several flow-control windows (1 KiB stream window); all write "
-            "compositions for short payloads and boundary families beyond; read / read_exact / AsyncRead with six buffer sizes; 1, 2, 3, 8 "
+            "compositions for short payloads and boundary families beyond; read / read_exact with six buffer sizes, tokio's AsyncRead through "
+            "read_to_end, tokio::io::copy and poll_read into a ReadBuf that is handed back partly filled (4 capacities); 1, 2, 3, 8 "
             "(thorough: also 20, 50, 90 of the transport's 100) concurrent streams in three write orders; payloads that begin with preamble "
             "look-alikes; one select! start deviation in the first 12 polls of the accept path (thorough: 24 polls, and pairs of deviations; "
             "every payload length 0..300 and each side of every window / packet boundary; triples of preamble cuts). Oracle: received bytes == sent bytes then end-of-stream, stream ids agree, no stream delivered twice. Part 'credit': "
@@ -31,9 +32,10 @@ CHECKS = {
     "C02": ("simx", "exploration", "DESIGN.md §6-C02",
             "Every scenario of a finite grid is executed end to end: (wt client -> wt server | raw client sending the request in each of "
             "72 QPACK representations x 3 pseudo-header orders | wt client against a raw server answering with 31 response variants x "
-            "representations) x URL grid (IPv4/IPv6/domain/upper-case hosts x default/explicit ports x 6 paths x 4 queries; the simulated "
+            "representations) x URL grid (IPv4/IPv6/domain/upper-case hosts x default/explicit ports x 8 paths x 6 queries, with fragments "
+            "after the path, after the query, empty, and directly after the authority; the simulated "
             "server listens at the address the URL names) x additional header sets (every static-table name, literal names of length "
-            "1,6,7,8,100, values across the 7-bit prefix boundary, Huffman-shrinking or not, pairs, one maximal set) x 7 server decisions. "
+            "1,6,7,8,100, digit- and symbol-led token names that sort before ':', values across the 7-bit prefix boundary, Huffman-shrinking or not, pairs, one maximal set) x 7 server decisions. "
             "Oracle: server sees exactly authority / path+query / fields; connect Ok iff accept, SessionRejected iff valid non-2xx; both "
             "sides report the CONNECT stream id as session id; the session is usable.",
             SIM_NOTE + " Expected authority/path use string slicing plus the three documented URL normalisations.",
@@ -46,13 +48,16 @@ CHECKS = {
             "foreign-session datagrams before and after each one x 4 id encodings: every delivered payload must be byte-identical to a "
             "sent one, delivered at most once, from the own session, and nothing may be lost when the receiver keeps up; (c) size contract: "
             "the peer advertises max_datagram_frame_size in {absent,0,1,2,8,9,10,11,16,17,18,64,1200,65535,...}; max_datagram_size() must "
-            "not panic or exceed 65535, and send(L) is TooLarge exactly for L > max, for every L in 0..=max+3.",
+            "not panic or exceed 65535, must equal the transport's maximum minus the length of the quarter stream id actually written, and "
+            "send(L) is TooLarge exactly for L > max, for every L in 0..=max+3 - for session ids 0 and 60..260 (the raw client puts its "
+            "CONNECT on its 16th..66th bidirectional stream), i.e. also where the session id's varint is longer than the quarter id's.",
             SIM_NOTE + " Only the sender-side API is judged for peer limits below quinn's own overhead.",
             "exhaustive enumeration of a bounded scenario grid executed on the real stack under a deterministic simulated environment"),
     "C04": ("simx", "exploration", "DESIGN.md §6-C04",
             "A raw peer (both roles) ends the session in every style: CLOSE_WEBTRANSPORT_SESSION capsule with 7 boundary 32-bit codes x 7 "
             "reasons of 0..1024 bytes (ASCII and multi-byte), the capsule after GREASE / unknown capsule / unknown frame, clean FIN, "
-            "RESET_STREAM, FIN inside a frame, capsule value of 0..3 bytes, 1025-byte reason, invalid UTF-8 reason, QUIC application close "
+            "RESET_STREAM, FIN inside a frame, capsule value of 0..3 bytes, 1025-byte reason (ASCII, and with a 2- / 3- / 4-byte character "
+            "straddling byte 1024), invalid UTF-8 reason, QUIC application close "
             "with 8 boundary 62-bit codes x reasons incl. non-UTF-8; in three session phases (idle; accept_uni/accept_bi/receive_datagram "
             "pending; additionally open streams in both directions). Every pending call and two rounds of later calls must report "
             "ApplicationClosed with exactly the peer's code and reason bytes (0, empty for FIN), abrupt / malformed terminations must be a local "
@@ -63,7 +68,8 @@ CHECKS = {
             "frame / unknown settings), CONNECT request HEADERS, CONNECT response HEADERS, GREASE + unknown capsule + unknown frame on the "
             "established session stream, GREASE + close capsule on it - cut at every single position (every pair for short messages), with "
             "one of 7 events between the pieces (nothing, own datagram, foreign datagram, complete WT uni stream, complete WT bidi stream, "
-            "GREASE frame on the other critical stream, QPACK encoder stream), with and without a virtual-time settle before / after the "
+            "GREASE frame on the other critical stream, QPACK encoder stream; server role also: the complete CONNECT request between the "
+            "pieces of SETTINGS, and the complete control stream between the pieces of the request), with and without a virtual-time settle before / after the "
             "event, plus every single non-zero select! start index in the first 40 polls of the worker's 9-branch and 5-branch selects and "
             "pairs of them in the first 8 (thorough: all cut pairs and triples of cuts around the frame header, the deviations at every "
             "third cut position x every event, 80 polls, all pairs of start values in the first 14 polls). The outcome class (session established and a probe stream delivered / terminated with exactly (code, "
@@ -73,7 +79,8 @@ CHECKS = {
     "C06": ("simx", "exploration", "DESIGN.md §6-C06",
             "wt<->wt and raw<->wt (raw peer as writer and as reader, both roles) x six data directions x {reset(c), stop(c), finish, finish "
             "with all acknowledgements withheld and later released} x phase {before any byte, after k bytes written and read, written and "
-            "unread, after finish} x 10 codes across every varint length up to 2^62-1 (thorough: every 2^k and 2^k-1 below 2^62 and the "
+            "unread, after finish} x 14 codes: both sides of every varint length up to 2^62-1 and code points the protocols reserve "
+            "(H3_NO_ERROR, H3_MESSAGE_ERROR, WEBTRANSPORT_BUFFERED_STREAM_REJECTED, WEBTRANSPORT_SESSION_GONE, ...) (thorough: every 2^k and 2^k-1 below 2^62 and the "
             "registered HTTP/3 / WebTransport codes, 140 values). Oracle: the reader sees a prefix of the written bytes "
             "then Reset(c); after stop(c) stopped(), write, write_all and finish all report Stopped(c); the raw peer sees RESET_STREAM / "
             "STOP_SENDING with exactly c; finish() stays pending while acknowledgements are withheld - also when the pending finish() is "
@@ -90,13 +97,19 @@ CHECKS = {
             "that any fixed pool of pending-header slots is exhausted. "
             "After the faults the raw peer opens a healthy uni and a healthy bidi stream, sends a datagram "
             "and finally a clean close capsule while the application keeps accepting; every victim must be delivered (own bytes) and the "
-            "close reported as ApplicationClosed(0, \"\") before a 10 s virtual horizon with keep-alives on.",
+            "close reported as ApplicationClosed(0, \"\") before a 10 s virtual horizon with keep-alives on; in further scenarios the "
+            "endpoint under test is configured through the library's default builder path (its own transport parameters) and 1..20 "
+            "accepted-but-unread streams are filled until the writer blocks; in a variant of every stall "
+            "scenario the session is instead ended by the application dropping every handle it holds, and the peer must see the "
+            "connection closed.",
             SIM_NOTE + " Quiescence at the virtual horizon is taken as 'never'.",
             "exhaustive fault enumeration executed on the real stack under a deterministic simulated environment"),
     "C08": ("simx", "exploration", "DESIGN.md §6-C08",
             "Opener (raw peer or wtransport peer) opens N uniquely tagged streams (N in 1,2,3,5,9 and 12 = 3x a concurrent-stream limit of "
             "4; thorough: N in 1..9,17,33,60,90 and 9/30/45 streams against limits of 2/7/10, cancellation at each of the first 33 indexes, "
-            "select! deviations in 60 polls and in pairs) in 4 uni/bidi patterns towards either role; the application accepts with 1-3 concurrent tasks, with 10 ms / 1 s between "
+            "select! deviations in 60 polls and in pairs) in 4 uni/bidi patterns towards either role; the application accepts with 1-3 concurrent tasks sharing the work, with 2-4 "
+            "tasks that each leave after their own share (a stream arriving while several accept calls are pending must reach one of them, "
+            "the next stream one of those still waiting), with 10 ms / 1 s between "
             "accepts, with every accept future polled 0..3 times then dropped and reissued, and with that cancellation applied at each single "
             "stream index; plus select! start deviations on the worker loop. Oracle: the multiset of (kind, stream id, bytes) returned by "
             "accept calls equals the multiset opened - nothing lost, duplicated, invented or carrying another stream's bytes - before the horizon.",
@@ -105,7 +118,9 @@ CHECKS = {
             "Part 'driver' (fault enumeration on the running stack): termination cause in {peer QUIC close x 4 code/reason pairs, peer close "
             "capsule x 3, peer FIN, local close x 4, four peer-induced local protocol errors, network partition -> idle timeout, all handles "
             "dropped with 0..2 (thorough 0..8) uni and 0..2 (0..8) bidi peer streams still inside their preamble; thorough also every "
-            "single-bit close code} x role x number of cloned handles. Nine kinds of "
+            "single-bit close code} x role x number of cloned handles x 0..3 surplus session requests sent by the peer on the established "
+            "connection beforehand x peer QPACK encoder / decoder streams open or not x select! start deviations in the polls after the "
+            "cause, singly and in two consecutive polls (the worker's select! and the nested one over the critical streams). Nine kinds of "
             "calls are pending when the cause is raised (accept_uni, accept_bi, receive_datagram, closed, open_uni / open_bi with stream "
             "credit exhausted, read without data, write against a full window, stopped; in the 'held' variant of every cause also finish() "
             "whose FIN cannot be acknowledged, an opening future whose preamble finds no send budget and a write blocked on the connection's "
@@ -138,7 +153,8 @@ CHECKS = {
             "critical alphabet up to length 5 (frames, QPACK, capsules; thorough: every decoder, and length 6 for those three; 2.2e10 decoder "
             "runs per build, about 30 min on 16 cores), every truncation / substitution / "
             "insertion / deletion of a 60-item valid corpus and structured adversarial families (prefix integers with 0..12 continuation bytes "
-            "in every QPACK context, length fields at/beyond every limit, edge ids), in two builds (release; overflow-checks + debug-assertions). "
+            "in every QPACK context, length fields at/beyond every limit, edge ids, close-capsule reasons around the 1024-byte limit with a "
+            "multi-byte character at every alignment), in two builds (release; overflow-checks + debug-assertions). "
             "Oracle: no panic, per-call allocation <= 16*len + 64 KiB, termination (watchdog), type invariants of returned values, and equality "
             "with the reference decoder (arbitrary-precision integers) wherever the reference defines the value. Inputs that could abort the "
             "process (huge declared lengths) run in one subprocess each.",
@@ -150,7 +166,7 @@ CHECKS = {
             "generate up to the depth bound is replayed against the implementation. Part 'typestates': per stream role (request stream, "
             "locally opened bidi, control, session) x {first frame seen, only noise so far, dead} over a 15-symbol frame alphabet, depth 5 "
             "(thorough 7); each trace through read_frame, read_frame_from_buffer and read_frame_async; the returned frames / numeric error code "
-            "must be the prescribed ones; plus the numeric registry of error codes, frame types and stream types. Part 'driver': "
+            "must be the prescribed ones (a frame cut by the end of its stream is H3_FRAME_ERROR on every role, RFC 9114 section 7.1); plus the numeric registry of error codes, frame types and stream types. Part 'driver': "
             "connection-level machine (control stream absent / type only / SETTINGS seen / closed, QPACK streams, CONNECT pending, session "
             "established, datagram queued, dead) over 52 peer events (server role) / 24 (client role), depth 4 (thorough 5: 3.7 M histories), replayed by a raw quinn "
             "peer against the running driver on the simulated network; after every event the reaction (alive, session offered + 200, request "
@@ -173,8 +189,9 @@ CHECKS = {
     "C14": ("protox", "exploration", "DESIGN.md §6-C14",
             "Bounded-exhaustive enumeration of values of every wire type (all varints below 2^30 (thorough 2^32) plus every 2^k±16, every frame "
             "kind x every payload length 0..4096, boundary session ids, builder subsets x boundary values, header maps over "
-            "name/value pools crossing every QPACK prefix-integer boundary, datagram ids x lengths, every destination capacity "
-            "around the exact size) executed on the real encoders/decoders and compared byte-for-byte with an independent "
+            "name/value pools crossing every QPACK prefix-integer boundary, datagram ids x lengths, every amount of room around the "
+            "exact size in a destination writer that is fresh or already holds 1 / 5 bytes - a refused write leaves offset and destination "
+            "untouched) executed on the real encoders/decoders and compared byte-for-byte with an independent "
             "reference codec; cross-implementation decode in every legal representation; every asynchronous encoder (put_varint, put_buffer, "
             "Frame::write_async, StreamHeader::write_async) into scripted sinks that accept 1..13 bytes per write with Pending patterns, and "
             "into a destination that stops half way.",
@@ -196,7 +213,8 @@ CHECKS = {
             "every 2^k+d up to 2^62 through stream-id classification (RFC 9000 §2.1 computed arithmetically), session-id validation, the "
             "session / stream / quarter id conversions and the datagram wire path, incl. quarter ids beyond 2^60-1. 'live': a raw peer sends "
             "uni streams, bidi streams and datagrams naming valid but non-existent sessions (ids 4, 8, 2^22, 2^62-4; payload 0/5/2000 bytes; "
-            "left open / FIN / RESET) before, between and after live-session traffic, in mixed bursts, and before the session exists (every "
+            "left open / FIN / RESET) before, between and after live-session traffic, in mixed bursts, with the live session on the peer's "
+            "2nd / 3rd / 17th / 18th request stream (foreign ids below, next to and above the live one), and before the session exists (every "
             "non-empty subset of foreign datagram / uni / bidi sent before the peer's SETTINGS and request, while the request is pending at a "
             "server application that accepts 1 s later, or before the raw server's response), in both roles, while the "
             "application keeps accepting: no foreign payload is delivered, foreign streams are refused with 0x3994bd84, live traffic is "
@@ -206,18 +224,21 @@ CHECKS = {
             "'pure': request admission over all 3^5 pseudo-header state combinations x 3 extra-field sets (incl. look-alikes differing by "
             "case / trailing space); every numeric StatusCode constructor over every 16-bit value and 2^k+d up to 2^64; FromStr and the "
             "response path over every decimal 0..=65535 and decorated forms; Default and the constants; insert() over reserved and "
-            "near-reserved names; SessionRequest::new over https / non-https URLs. 'live': a raw client sends each of the 3^5 requests to a "
+            "near-reserved names; SessionRequest::new over https / non-https URLs incl. URLs with a fragment in every position (the request "
+            "target is path-plus-query). 'live': a raw client sends each of the 3^5 requests to a "
             "running server followed by a valid request (refused on its own stream only, the valid one is still offered and answered 200); a "
             "raw server answers connect with every status 0..=65535, larger values, 18 malformed texts and no :status "
             "(Ok iff 200..=299, SessionRejected iff another valid status, else a local HTTP/3 error and a connection close); connect with "
-            "reserved / non-reserved additional headers.",
+            "reserved / non-reserved additional headers and with 72 near-reserved names (every single-letter case flip, upper case, "
+            "surrounding white space, other pseudo-header names): whatever the library does with them, the five pseudo-headers the server "
+            "sees are the URL's.",
             SIM_NOTE + " '+200' / '0200' style texts are unspecified.",
             "exhaustive enumeration of inputs on the real constructors and of request / response variants against the real driver"),
     "C10": ("simx", "exploration", "DESIGN.md §6-C10",
             "Complete grid of direct calls of the public ServerHashVerification::verify_server_cert with an injected clock: key algorithm "
             "(P-256, P-384, Ed25519; rcgen) x validity (1 s, 13 d, 14 d - 1 s, 14 d, 14 d + 1 s, 15 d, 365 d) x now (not_before -1/0/+1 s, "
             "middle, not_after -1/0/+1 s, +-60 s second by second, and validity 14 d +-60 s; thorough +-900 s, 14 d +-3600 s, 18 validities) x hash set (empty, own, other, 31 others "
-            "+ own, 32 others); truncated / bit-flipped DER (thorough: every single bit and every truncation); and end to end on the simulated network 6 trust policies (hashes own / other / "
+            "+ own, 32 others, the hash of another valid certificate that is sent behind the unpinned leaf, own with a longer chain); truncated / bit-flipped DER (thorough: every single bit and every truncation); and end to end on the simulated network 6 trust policies (hashes own / other / "
             "empty, native roots, custom root store with the issuing CA, no validation) x 6 server identities (P-256 14 d, expired, not yet "
             "valid, 15 d, P-384, CA-signed leaf). Expected decision is computed from the generation parameters; a refused server must never "
             "yield a session request at the server application.",
@@ -225,10 +246,12 @@ CHECKS = {
             "wall clock with >= 1 h margins.",
             "exhaustive enumeration of a finite certificate / clock / policy grid on the real verifier and the real stack"),
     "C19": ("simx", "exploration", "DESIGN.md §6-C19",
-            "Complete grids: 11 SAN lists x 8 validity settings with every generated certificate re-parsed by x509-parser (v3, id-ecPublicKey "
+            "Complete grids: 11 SAN lists x 11 validity settings (Identity::self_signed, validity_days 0/1/13/14/15 from now, explicit window, "
+            "offset_from_not_before, validity_days counted from a not_before 3 days ago / 1 hour ago / tomorrow) with every generated certificate re-parsed by x509-parser (v3, id-ecPublicKey "
             "+ prime256v1, exactly the requested SANs typed DNS / IP, validity as requested, default <= 14 d, valid now, accepted by hash "
             "pinning with its own hash, usable in a TLS server config; non-ASCII names refused); PEM store->load for certificate, private "
-            "key, identity and chains of length 0,1,2,3,5 (byte-identical DER, labels); digests with every uniform byte value and every "
+            "key, identity and chains of length 0,1,2,3,5 (byte-identical DER, labels), each also stored over an older, longer file at the "
+            "same path (nothing of the old file may survive); digests with every uniform byte value and every "
             "position x 11 boundary values through both textual formats, FromStr and Display; every truncation and single-character "
             "substitution of valid digest texts, wrong element counts and out-of-range elements (must be refused, never panic); truncations / "
             "substitutions of PEM files and truncations / bit flips of DER (never panic).",
@@ -239,8 +262,9 @@ CHECKS = {
             "v4 / v6, with_bind_address_v6 x 3 dual-stack settings, with_bind_default, pre-bound socket; observed both on the socket the "
             "endpoint would bind (hook H4) and through Endpoint::server / client + local_addr): family, address, port, IPV6_V6ONLY; TLS "
             "defaults by in-memory rustls handshakes against peers restricted to TLS 1.2 / 1.3 (only 1.3 + ALPN h3 may succeed); ALPN "
-            "negotiation against raw QUIC peers offering h3 / hq-29 / both / nothing in both roles; all five builder paths handshaking on the "
-            "simulated network; idle timeout on each side in {default, 1 s, 5 s, 10 min, disabled} x keep-alive off / T/3 x partition / idle "
+            "negotiation against raw QUIC peers offering h3 / hq-29 / both / nothing in both roles; all five builder paths (and a custom "
+            "transport configuration on one side only) handshaking on the simulated network, a caller-supplied transport configuration's own "
+            "idle timeout (7 s) and keep-alive (2 s) honoured over 30 s of silence; idle timeout on each side in {default, 1 s, 5 s, 10 min, disabled} x keep-alive off / T/3 x partition / idle "
             "healthy network measured in virtual time (TimedOut at min(T) / survives >= 6 T / never dies within 1 h); representability of "
             "max_idle_timeout (17 values from 0 over both sides of 2^62 ms and of 2^64 ms to Duration::MAX); client migration with allow_migration on / off; reload_config (new connections see the "
             "new identity and transport settings, the established connection keeps working).",
